@@ -206,6 +206,31 @@ def _fint(a):
     return int(v) % int(mod) if isinstance(mod, int) else int(v)
 
 
+class CpuTimeout(BaseException):
+    """not an Exception: must not be swallowed by the code under test"""
+
+
+class Deadline:
+    """CPU-time budget for one case (an operation that never returns is a violation, not a hanging check)."""
+
+    def __init__(self, seconds):
+        self.seconds = seconds
+
+    def _fire(self, *_):
+        raise CpuTimeout()
+
+    def __enter__(self):
+        import signal
+        self.old = signal.signal(signal.SIGPROF, self._fire)
+        signal.setitimer(signal.ITIMER_PROF, self.seconds)
+
+    def __exit__(self, *exc):
+        import signal
+        signal.setitimer(signal.ITIMER_PROF, 0)
+        signal.signal(signal.SIGPROF, self.old)
+        return False
+
+
 class GOp:
     """arity; fn(*plain elements) -> secure result | Future; ref(*plain elements) -> plain result | None (skip);
     res = 'elem' | 'bit'; mode = 'secure' | 'public'; cls(codes) -> input class for the violation key; site = key part."""
@@ -423,7 +448,14 @@ def run_sp(job):
                     detail = dict(engine='sp', spec=list(fam.spec), name=name, vals=list(vals), mode=mode,
                                   script={str(a): b for a, b in (script or {}).items()}, seed=job['seed'])
                     try:
-                        got, draws = eval_sp(mpc, seam, fam, op, vals, mode, script, job['seed'])
+                        with Deadline(120):
+                            got, draws = eval_sp(mpc, seam, fam, op, vals, mode, script, job['seed'])
+                    except CpuTimeout:
+                        part.case(key=None)
+                        part.violation(vkey(fam, op, vals) + ':hangs', f'[{cfg}] {fam.name} {name}{tuple(vals)}: no result within 120 s of '
+                                       f'CPU time (masks: {mode} {script})', detail)
+                        part.caps.append('CPU budget hit')
+                        return part
                     except Exception as exc:
                         part.case(key=None)
                         part.violation(vkey(fam, op, vals) + ':exception', f'[{cfg}] {fam.name} {name}{tuple(vals)} raised {exc!r:.200} '
@@ -520,6 +552,7 @@ def run_mp(job):
     rops = build_ops(rfam, exact.Dummy(), m)
     k = exact.sec_param_for(m, t, 4)
     world = exact.make_world(m, t, no_prss, k)
+    world.HORIZON = 1_200_000          # a stuck execution must end soon (normal batches need < 2 * 10^5 steps)
     seams = world.script_seams
     cases = mp_cases(rfam, m, job.get('ops'), job.get('skip'), job.get('vals'))
     mine = cases[job['part']::job['parts']]
@@ -640,7 +673,7 @@ def jobs(tier, seed):
         binary = [n for n in ops if ops[n].arity == 2]
         if not q:
             pts = 10 if kind in ('Sym', 'QR', 'SG') else 4 if kind == 'EC' else 6 if spec == ('Cl', -23) else 2
-            n = {'Sym': 8 if spec[1] == 4 else 2, 'Cl': 8, 'EC': 4}.get(kind, 2)
+            n = 8 if spec == ('Sym', 4) or kind == 'Cl' else 4 if kind == 'EC' else 2
             sp_split(spec, sorted(unary + binary), n, points=pts)
             for name in ladder:
                 sp(spec, [dict(ops=[name], modes=('seeded', 'max'), points=0)])
@@ -662,7 +695,8 @@ def jobs(tier, seed):
         elif kind == 'EC':
             sp(spec, [dict(ops=CORE_BIN, modes=('seeded', 'max'), points=1),
                       dict(ops=[n for n in binary if n not in CORE_BIN and n != 'chain:c'], dom='red', modes=('seeded',), points=0)])
-            sp(spec, [dict(ops=sorted(unary), modes=('seeded', 'max'), points=0),
+            sp(spec, [dict(ops=sorted(unary), modes=('seeded',), points=0),
+                      dict(ops=['inv:c', 'sq:c', 'rep:-2:c', 'reps_pb:F:-1', 'reps_sb:Z:2:i'], dom='red', modes=('max', 'zero'), points=0),
                       dict(ops=['reps_sb:F:2:i'], vals=[1], modes=('seeded',), points=0)])
         else:
             sp_split(spec, CORE_BIN, 2, points=2)
@@ -686,32 +720,76 @@ def jobs(tier, seed):
                 else:
                     mp(sym, m, t, no_prss, ['op:i', 'inv:i', 'eq:i', 'ifelse1:i', 'reps_pb:F:2', 'reps_sb:Z:2:i'], parts=2, vals=[SYM6[3]],
                        patterns=('seeded',), batch=3)
-                for spec in (('QR', 7), ('QR', 11), ('SG', 23, 11)):     # exponent fields GF(3), GF(5): lifted at m >= 3 / m = 5
-                    mp(spec, m, t, no_prss, MP_OPS, vals=Fam(fg, spec).mpdom[:3], patterns=pats)
+                for spec in (('QR', 7), ('QR', 11)) + ((('SG', 23, 11),) if m == 3 else ()):     # exponent fields GF(3), GF(5): lifted
+                    mp(spec, m, t, no_prss, MP_OPS, vals=Fam(fg, spec).mpdom[:3], patterns=pats if spec != ('QR', 7) else ('seeded',))
                 if m == 3:          # class groups at (5,2): thorough tier only (~30 s per operation)
                     mp(('Cl', -23), m, t, no_prss, ['op:i', 'eq:i', 'reps_pb:F:2', 'reps_pb:Z:2'], parts=2, vals=[(2, 1, 3)],
                        patterns=('seeded',), batch=2)
                 curve = {(3, False): ('EC', 'Ed25519', 'extended'), (3, True): ('EC', 'secp256k1', 'projective'),
                          (5, False): ('EC', 'Ed25519', 'projective'), (5, True): ('EC', 'Ed25519', 'affine')}[m, no_prss]
-                mp(curve, m, t, no_prss, ['op:i', 'inv:i', 'eq:i', 'ifelse1:i', 'reps_pb:F:-1', 'reppub:F:2', 'reps_pb:Z:2', 'reps_sb:Z:-1:c',
-                                          'xmul_pb:F:2'], parts=2, vals=[1, 2], patterns=('seeded',), batch=6)
+                mp(curve, m, t, no_prss, ['op:i', 'inv:i', 'eq:i', 'ifelse1:i', 'reps_pb:F:-1', 'reppub:F:2', 'reps_pb:Z:2', 'reps_sb:Z:-1:c'],
+                   parts=2, vals=[1, 2], patterns=('seeded',), batch=6)
                 mp(curve, m, t, no_prss, ['eq:i'], vals=[2, 'N2'], patterns=('seeded',), batch=4)     # two representations of 2G
             else:
                 pats = ('seeded', 'zero', 'max')
-                mp(sym, m, t, no_prss, MP_OPS, parts=6, patterns=pats)
+                if m == 3:
+                    mp(sym, m, t, no_prss, MP_OPS, parts=6, patterns=pats)
+                else:
+                    mp(sym, m, t, no_prss, MP_OPS, parts=6, vals=SYM6[1:4], patterns=('seeded', 'max'), batch=8)
                 for spec in (('QR', 7), ('QR', 11), ('QR', 23), ('SG', 23, 11), ('SG', 47, 23)):
                     mp(spec, m, t, no_prss, None, patterns=pats)
-                for spec in CLS:
-                    mp(spec, m, t, no_prss, MP_OPS_CL, parts=4, vals=Fam(fg, spec).dom[:3], patterns=('seeded', 'max'), batch=4)
-                for spec in CURVES_QUICK + CURVES_MORE:
-                    mp(spec, m, t, no_prss, MP_OPS, skip=LADDER, parts=3, patterns=('seeded', 'max'), batch=8)
+                if m == 3:
+                    for spec in CLS:
+                        mp(spec, m, t, no_prss, MP_OPS_CL, parts=4, vals=Fam(fg, spec).dom[1:3], patterns=('seeded', 'max'), batch=3)
+                else:      # ~30 s per class-group operation with 5 parties
+                    mp(('Cl', -23), m, t, no_prss, ['op:i', 'inv:i', 'eq:i', 'reps_pb:F:2', 'reppub:F:-1'], parts=3, vals=[(2, 1, 3), (2, -1, 3)],
+                       patterns=('seeded',), batch=2)
+                for spec in CURVES_QUICK + (CURVES_MORE + [('HC',)] if m == 3 else []):
+                    more = spec in CURVES_MORE or spec == ('HC',)
+                    mp(spec, m, t, no_prss, MP_OPS, skip=LADDER, parts=3, vals=[1, 2, 'N2'] if spec[0] == 'EC' else [1, 2, -1],
+                       patterns=('seeded', 'max') if m == 3 and not more else ('seeded',), batch=8)
                 mp(('EC', 'Ed25519', 'extended'), m, t, no_prss, ['reps_sb:F:2:i'], vals=[1], patterns=('seeded',), batch=1)
-                mp(('HC',), m, t, no_prss, MP_OPS, skip=LADDER, parts=2, patterns=('seeded', 'max'), batch=8)
-    out.sort(key=lambda j: -(j.get('m', 0) * 10 + (j['spec'][0] in ('Cl', 'EC', 'HC'))))
+    return pack(out, 40 if q else 60, tier, seed)
+
+
+def weight(j):
+    """Rough relative cost of an atomic job (only used to balance the bins)."""
+    kind = j['spec'][0]
+    if j['engine'] == 'sp':
+        w = {'Sym': 12 if j['spec'] != ('Sym', 3) else 8, 'Cl': 25, 'EC': 22, 'HC': 40}.get(kind, 8)
+        if any(any(str(o).startswith('reps_sb:F') for o in (t.get('ops') or [])) for t in j['tasks']) and kind == 'EC':
+            w += 15
+        return w
+    w = {'Sym': 25, 'Cl': 45, 'EC': 30, 'HC': 40}.get(kind, 12)
+    return w * (2.2 if j['m'] == 5 else 1) * len(j.get('patterns', 'x')) ** 0.5
+
+
+def pack(atoms, nbins, tier, seed):
+    """Group the atomic jobs into at most ~nbins worker jobs (one process each; a process keeps one party configuration)."""
+    groups = {}
+    for j in atoms:
+        groups.setdefault((j['engine'], j.get('m'), j.get('t'), j.get('no_prss')), []).append(j)
+    total = sum(weight(j) for j in atoms)
+    out = []
+    for key in sorted(groups, key=repr):
+        js = sorted(groups[key], key=lambda j: -weight(j))
+        nb = max(1, min(len(js), round(nbins * sum(weight(j) for j in js) / total)))
+        bins = [[0, []] for _ in range(nb)]
+        for j in js:
+            b = min(bins, key=lambda b: b[0])
+            b[0] += weight(j)
+            b[1].append(j)
+        out += [dict(engine='multi', jobs=b[1], tier=tier, seed=seed, w=round(b[0])) for b in bins if b[1]]
+    out.sort(key=lambda j: -j['w'])
     return out
 
 
 def run_job(job):
+    if job['engine'] == 'multi':
+        total = Part()
+        for j in job['jobs']:
+            total.merge(run_job(j))
+        return total
     if job['engine'] == 'sp':
         return run_sp(job)
     return run_mp(job)
